@@ -65,6 +65,10 @@ package regprocessor
 //@   invariant 0 <= iter && iter <= len(p.prefixOverrideSubnetsCumulativeWeights) && ipNet == nil
 //@   invariant forall j int :: 0 <= j && j < iter ==> !(randVal < p.prefixOverrideSubnetsCumulativeWeights[j])
 
+// C13 "each using either the old or the new subnet set in full": the selector is read only inside a hold of the
+// selector lock and REPLACED only inside an exclusive hold - a reload that swaps it under a read hold would change the
+// set in the middle of a request's read-locked section
+//@ guardedby @C13: RegProcessor.selectorMutex: ipSelector
 //@ func (p *RegProcessor) ReloadSubnets() error
 //@   requires p != nil && !held(&p.selectorMutex) && rheld(&p.selectorMutex) == 0
 //@   ensures @C13: !held(&p.selectorMutex) && rheld(&p.selectorMutex) == 0
